@@ -12,6 +12,8 @@ import LokiModel.Generated.C23Tables
 * `C23_eq_hash_partial`, `C23_set_mem_partial` (T2): `Item.__eq__` and `Item.__hash__` agree, and `set`/`dict` lookup
   agrees with `==`, when the stored names are lower-case; `C23_eq_hash_fixed`: hashing the lower-cased name is
   consistent without any premise (fix candidate).  The failing witnesses are in `Findings/C23.lean`.
+* `C23_frontend_args_pattern`, `C23_frontend_args_recase`: which `frontend_args` entry applies to a file depends on
+  keys and path only through their lower-cased forms (absolute and relative keys alike).
 * `C23_dup_keys` (T3, full since the `fix:` commit): the cache keys produced by `DuplicateKernel` →
   `get_or_create_item_from_item` depend on the suffix options only through their lower-cased form, and cloning never
   fails (`C23_dup_never_fails`).  The old behaviour (kernel outside any module, suffix that changes under
@@ -225,5 +227,81 @@ theorem C23_dup_never_fails (cache : List Name) (scope loc s ms : Name) :
 example : cloneItem [] "km".toList "kern".toList "_Dup".toList [] = .ok ["km_dup".toList, "km_dup#kern_dup".toList] := by decide
 example : cloneItem [] [] "fk".toList "_dup".toList [] = .ok ["#fk_dup".toList] := by decide
 example : cloneItem [] [] "fk".toList "_Dup".toList [] = .ok ["#fk_dup".toList] := by decide
+
+
+/-! ## `frontend_args` keys -/
+
+theorem toLower_eq_slash (c : Char) : c.toLower = '/' ↔ c = '/' := by
+  constructor
+  · intro h
+    unfold Char.toLower at h
+    split at h
+    · rename_i hc
+      exfalso
+      have := congrArg Char.val h
+      simp at this
+      have h1 := hc.1
+      have h2 := hc.2
+      simp [UInt32.le_iff_toNat_le] at h1 h2
+      have := congrArg UInt32.toNat this
+      simp at this
+      omega
+    · exact h
+  · intro h; subst h; decide
+
+theorem head_slash_of_lower_eq {k k' : Name} (h : lower k = lower k') :
+    (k.head? = some '/') = (k'.head? = some '/') := by
+  cases k with
+  | nil =>
+    cases k' with
+    | nil => rfl
+    | cons _ _ => simp [lower] at h
+  | cons c cs =>
+    cases k' with
+    | nil => simp [lower] at h
+    | cons c' cs' =>
+      simp only [lower, List.map_cons, List.cons.injEq] at h
+      simp only [List.head?_cons, Option.some.injEq]
+      apply propext
+      constructor
+      · intro hc
+        have : c'.toLower = '/' := by rw [← h.1, hc]; decide
+        exact (toLower_eq_slash c').1 this
+      · intro hc
+        have : c.toLower = '/' := by rw [h.1, hc]; decide
+        exact (toLower_eq_slash c).1 this
+
+/-- the pattern a `frontend_args` key stands for depends on the key only through its lower-cased form -/
+theorem C23_frontend_args_pattern (k k' : Name) (h : lower k = lower k') : faPattern k = faPattern k' := by
+  have hs : Char.toLower '*' = '*' := by decide
+  have hh := head_slash_of_lower_eq h
+  unfold faPattern
+  by_cases hk : k.head? = some '/'
+  · have hk' : k'.head? = some '/' := by rw [← hh]; exact hk
+    simp only [hk, hk', if_true, h]
+  · have hk' : ¬ k'.head? = some '/' := by rw [← hh]; exact hk
+    simp only [hk, hk', if_false]
+    simp only [lower, List.map_cons, hs] at h ⊢
+    rw [h]
+
+/-- **frontend_args**: which entry applies to a file does not depend on the letter case of the keys or of the path -/
+theorem C23_frontend_args_recase {α : Type} (path path' : Name) (hp : lower path = lower path') :
+    ∀ (es es' : List (Name × α)), es.map (fun e => (lower e.1, e.2)) = es'.map (fun e => (lower e.1, e.2)) →
+      faLookup path es = faLookup path' es'
+  | [], [], _ => rfl
+  | [], _ :: _, h => by simp at h
+  | _ :: _, [], h => by simp at h
+  | (k, v) :: es, (k', v') :: es', h => by
+    simp only [List.map_cons, List.cons.injEq, Prod.mk.injEq] at h
+    obtain ⟨⟨hk, hv⟩, hrest⟩ := h
+    have ih := C23_frontend_args_recase path path' hp es es' hrest
+    by_cases hm : glob (faPattern k') (lower path') = true
+    · simp [faLookup, faMatch, C23_frontend_args_pattern k k' hk, hp, hv, hm]
+    · simp [faLookup, faMatch, C23_frontend_args_pattern k k' hk, hp, hm, ih]
+
+/-- non-vacuity: an absolute key with upper-case letters matches its file -/
+example : faMatch "/tmp/Proj/Comp2.F90".toList "/tmp/Proj/comp2.F90".toList = true := by decide
+example : faMatch "/tmp/Proj/Comp2.F90".toList "COMP2.f90".toList = true := by decide
+example : faMatch "/tmp/Proj/Comp2.F90".toList "comp3.F90".toList = false := by decide
 
 end LokiModel.C23
